@@ -729,6 +729,56 @@ Fixpoint spec_answers (wire waiting : bool) (l : list step) : list (Z * Z) :=
   | SApp a :: t => spec_answers (wire_app wire a) (wait_app waiting a) t
   end.
 
+(* ====================================================================================
+   The clipboard hand-off (OSC 52), from the TERMINAL's side: what the callers of ClipboardPop
+   must receive.  A report is the answer to the call that is waiting when it arrives; a report
+   that arrives while nobody waits (unsolicited, repeated, or late: the caller's context has
+   expired) is consumed and FORGOTTEN -- it must not be kept for a later call, whose answer is
+   the report the terminal sends to THAT call.  Written without [handle]: the fields of the
+   payload by a right-to-left split. *)
+
+(* the ';'-separated fields of a string (at least one) *)
+Fixpoint fields (c : Z) (s : list Z) : list (list Z) :=
+  match s with
+  | [] => [[]]
+  | x :: t =>
+      if x =? c then [] :: fields c t
+      else match fields c t with f :: r => (x :: f) :: r | [] => [[x]] end
+  end.
+
+Section ClipSpec.
+  Variable b64 : list Z -> option (list Z).
+
+  (* the clipboard text a delivered sequence reports: OSC 52 ; <selection> ; <base64>  (the
+     payload begins with "52" and has exactly three fields; the third one decodes) *)
+  Definition clip_answer (it : item) : option (list Z) :=
+    match it with
+    | IOsc payload =>
+        let pl := gostring payload in
+        if prefixb [53; 50] pl then
+          match fields 59 pl with [_; _; d] => b64 d | _ => None end
+        else None
+    | _ => None
+    end.
+
+  (* is a caller of ClipboardPop waiting for the answer? *)
+  Definition clip_wait_app (waiting : bool) (a : appact) : bool :=
+    match a with AClipWait => true | AClipLeave => false | _ => waiting end.
+
+  (* what the callers of ClipboardPop must receive, in order *)
+  Fixpoint spec_clips (waiting : bool) (l : list step) : list (list Z) :=
+    match l with
+    | [] => []
+    | SItem IEof :: _ => []
+    | SItem it :: t =>
+        match clip_answer it with
+        | Some b => if waiting then b :: spec_clips false t else spec_clips false t
+        | None => spec_clips waiting t
+        end
+    | SApp a :: t => spec_clips (clip_wait_app waiting a) t
+    end.
+End ClipSpec.
+
 Definition is_nil {A} (l : list A) : bool := match l with [] => true | _ => false end.
 Definition same_prologue_act (a b : appact) : bool :=
   match a, b with
